@@ -112,6 +112,8 @@ def no_premature_return(repo, rep, fi, fw, dw):
 
 
 def run(repo, rep, tier):
+    from .round7b import hygiene
+    hygiene(repo, rep, "C16", ('wavespectra.core.utils',), falsy=True)
     rep.rule("R-C16-6", "(shared with C03) the NaN a centred window leaves at the grid edges is filled from the input on every path")
     from .round7 import unconditional_boundary_fill
     unconditional_boundary_fill(repo, rep, "R-C16-6")
